@@ -368,6 +368,14 @@ def main(argv=None):
             if args.only and args.only not in n:
                 continue
             tasks.append(('c', (prop, n)))
+        # checks / bounded stand-ins of another sidecar module that this property rests on too
+        # (`M.shared_checks = [('C09', 'name'), ...]`): run again here, reported under this property
+        for (other, n) in getattr(m, 'shared_checks', ()):
+            if args.only and args.only not in n:
+                continue
+            assert any(n == x[0] for mm in _MODS if mm.prop == other for x in list(mm.checks) + list(mm.bounded_checks)), \
+                'shared check %s/%s does not exist' % (other, n)
+            tasks.append(('c', (other, n)))
     missing = [(q, why) for (q, why) in _REG.missing
                if (q in _REG.contracts and prop in _REG.contracts[q].props) or
                any(q == ls.qname for m in mine for ls in m.loops)]
